@@ -635,6 +635,37 @@ impl St {
                     if b.iter().count() != obs.len() || b.iter().rev().count() != obs.len() {
                         return Err(format!("iter().count() = {}, expected {}", b.iter().count(), obs.len()));
                     }
+                    // zip with random-access partners (std specialises this on nightly through an unstable hook an iterator
+                    // may implement): a range, a slice iterator, behind the forwarding adaptors, from both ends, with nth
+                    {
+                        let idx: Vec<usize> = (0..obs.len()).collect();
+                        let chk_pairs = |what: &str, got: Vec<(usize, usize)>, want: Vec<(usize, usize)>| -> R<()> {
+                            if got != want {
+                                return Err(format!("{what} pairs the positions {:?} (address order of the contents, partner index), expected {:?}", got, want));
+                            }
+                            Ok(())
+                        };
+                        let pos_of = |t: &Tracked| obs.iter().position(|o| o.addr == addr(t)).unwrap_or(usize::MAX);
+                        let straight: Vec<(usize, usize)> = idx.iter().map(|i| (*i, *i)).collect();
+                        chk_pairs("iter().zip(0..len)", b.iter().zip(0..obs.len()).map(|(t, i)| (pos_of(t), i)).collect(), straight.clone())?;
+                        chk_pairs("iter().zip(slice.iter())", b.iter().zip(idx.iter()).map(|(t, i)| (pos_of(t), *i)).collect(), straight.clone())?;
+                        chk_pairs("(0..len).zip(iter())", (0..obs.len()).zip(b.iter()).map(|(i, t)| (pos_of(t), i)).collect(), straight.clone())?;
+                        chk_pairs("iter().map(id).enumerate().zip(0..len)", b.iter().map(|t| t).enumerate().zip(0..obs.len()).map(|((k, t), i)| (pos_of(t), i + k - k)).collect(), straight.clone())?;
+                        chk_pairs("iter().fuse().zip(0..len)", b.iter().fuse().zip(0..obs.len()).map(|(t, i)| (pos_of(t), i)).collect(), straight.clone())?;
+                        let mut back: Vec<(usize, usize)> = b.iter().zip(0..obs.len()).rev().map(|(t, i)| (pos_of(t), i)).collect();
+                        back.reverse();
+                        chk_pairs("iter().zip(0..len).rev()", back, straight.clone())?;
+                        if obs.len() > 1 {
+                            chk_pairs("iter().skip(1).zip(0..)", b.iter().skip(1).zip(0..obs.len()).map(|(t, i)| (pos_of(t), i)).collect(), idx[1..].iter().map(|i| (*i, *i - 1)).collect())?;
+                            let g = b.iter().zip(0..obs.len()).nth(obs.len() - 1).map(|(t, i)| (pos_of(t), i));
+                            if g != Some((obs.len() - 1, obs.len() - 1)) {
+                                return Err(format!("iter().zip(0..len).nth(len - 1) gave {:?}", g));
+                            }
+                        }
+                        chk_pairs("range(..).zip(0..len)", b.range(crate::deq::RangeArg { start: Bound::Unbounded, end: Bound::Unbounded, native: true }).zip(0..obs.len()).map(|(t, i)| (pos_of(t), i)).collect(), straight.clone())?;
+                        let zm: Vec<(usize, usize)> = b.iter_mut().zip(0..obs.len()).map(|(t, i)| (obs.iter().position(|o| o.addr == addr(t)).unwrap_or(usize::MAX), i)).collect();
+                        chk_pairs("iter_mut().zip(0..len)", zm, straight)?;
+                    }
                     // value-dependent consumers (ties between equal elements are decided by position)
                     let want_max = (0..obs.len()).max_by_key(|k| obs[*k].val).map(|k| &obs[k]);
                     let want_min = (0..obs.len()).min_by_key(|k| obs[*k].val).map(|k| &obs[k]);
